@@ -374,7 +374,8 @@ def knownGuard : String → Bool
   | "+schemaDefaultsValidationDisabled" | "-schemaDefaultsValidationDisabled"
   | "@nonnil:parameter.Schema" | "@nonnil:mediaType.Schema" | "@nonnil:header.Schema"
   | "@isnil:parameter.Schema" | "@isnil:mediaType.Schema" | "@isnil:header.Schema"
-  | "@nonnil:parameter.Example" | "@isnil:parameter.Example" => true
+  | "@nonnil:parameter.Example" | "@isnil:parameter.Example"
+  | "@cond:h == header" | "@not:cond:h == header" => true
   | _ => false
 
 open KinModel.Gen in
@@ -451,6 +452,11 @@ def litHolds (o : Opts) (a : Attrs) : String → Bool
   | "@isnil:parameter.Schema" | "@isnil:mediaType.Schema" | "@isnil:header.Schema" => !a.flag "hasSchema"
   | "@nonnil:parameter.Example" => a.flag "hasExample"
   | "@isnil:parameter.Example" => !a.flag "hasExample"
+  -- `Header.Validate` (4c7d612): the header is on the stack of the headers whose validation is in progress, i.e. it
+  -- is met again below itself (through the encoding headers of its own content); the model tree marks such an
+  -- occurrence with the flag "again"
+  | "@cond:h == header" => a.flag "again"
+  | "@not:cond:h == header" => !a.flag "again"
   | _ => false
 def guardsHold (o : Opts) (a : Attrs) (gs : List String) : Bool := gs.all (litHolds o a)
 
@@ -461,17 +467,20 @@ def rowsFor (l : List (Kind × String × List String)) (k : Kind) (n : String) :
 /-- some row for (kind, name) has all its guards satisfied (option flags, structural conditions on the node) -/
 def anyHolds (o : Opts) (a : Attrs) (gss : List (List String)) : Bool := gss.any (guardsHold o a)
 
-/-- the four facts a literal can read: the two option flags, whether the node has a schema, an example -/
+/-- the facts a literal can read: the two option flags, whether the node has a schema, an example, and whether it
+is a header met again below itself -/
 def mkO (e d : Bool) : Opts := { exDisabled := e, defDisabled := d }
-def mkA (s x : Bool) : Attrs := { flags := (if s then ["hasSchema"] else []) ++ (if x then ["hasExample"] else []) }
+def mkA (s x g : Bool) : Attrs :=
+  { flags := (if s then ["hasSchema"] else []) ++ (if x then ["hasExample"] else []) ++ (if g then ["again"] else []) }
 
-/-- the rows hold exactly when `f` says so, decided over the sixteen valuations of the four facts -/
-def holdsAs (gss : List (List String)) (f : Bool → Bool → Bool → Bool → Bool) : Bool :=
+/-- the rows hold exactly when `f` says so, decided over the thirty-two valuations of the five facts (the two
+option flags; the node has a schema, has an example, is a header met again below itself) -/
+def holdsAs (gss : List (List String)) (f : Bool → Bool → Bool → Bool → Bool → Bool) : Bool :=
   [false, true].all fun e => [false, true].all fun d => [false, true].all fun s => [false, true].all fun x =>
-    anyHolds (mkO e d) (mkA s x) gss == f e d s x
+    [false, true].all fun g => anyHolds (mkO e d) (mkA s x g) gss == f e d s x g
 
 /-- under every option set and whatever the node has, some row has all its guards satisfied -/
-def alwaysHolds (gss : List (List String)) : Bool := holdsAs gss (fun _ _ _ _ => true)
+def alwaysHolds (gss : List (List String)) : Bool := holdsAs gss (fun _ _ _ _ _ => true)
 
 def active (T : Table) (o : Opts) : Act := fun k a pos => anyHolds o a (rowsFor T.edges k pos)
 
@@ -674,7 +683,8 @@ def parameterOKCode (T : Table) (o : Opts) (d : Doc) : Bool :=
 
 def headerOKCode (T : Table) (o : Opts) (d : Doc) : Bool :=
   let a := d.attrs
-  if a.str "name" != "" then false
+  if a.flag "again" then true          -- 4c7d612: a header whose validation is in progress is not validated again
+  else if a.str "name" != "" then false
   else if a.str "in" != "" then false
   else if !((a.str "style" = "" || a.str "style" = "simple")) then false
   else if schemaXorContentBad a then false
@@ -1006,6 +1016,9 @@ def violations (d : Doc) : List Viol :=
       when (a.flag "hasSchema" && a.flag "hasExample" && a.flag "hasExamples") "exampleAndExamples" ++
       exampleViols d ++ extraViols a
   | .header =>
+      -- a header met again below itself is the same object as an ancestor on the path: its violations are
+      -- those of that ancestor, where they are counted
+      if a.flag "again" then [] else
       when (a.str "name" != "") "headerName" ++ when (a.str "in" != "") "headerIn" ++
       when (!(a.str "style" = "" || a.str "style" = "simple")) "badStyle" ++
       when (schemaXorContentBad a) "schemaXorContent" ++
@@ -1066,7 +1079,9 @@ def specEdges : List (Kind × String) := [
   (.oauthFlows, "clientCredentials"), (.oauthFlows, "authorizationCode"),
   (.servers, "items"), (.server, "variables")]
 
-def specAct : Act := fun k _ pos => specEdges.contains (k, pos)
+/-- the containment relation of the property on the model tree; nothing lies below the mark of a header met again
+below itself (what it contains is reached through the ancestor it stands for) -/
+def specAct : Act := fun k a pos => specEdges.contains (k, pos) && !(k = .header && a.flag "again")
 def allAct : Act := fun _ _ _ => true
 
 /-- conforming: every node of the document satisfies every rule in force -/
@@ -1096,9 +1111,11 @@ def excl7Node (d : Doc) : Bool :=
 follows `ref.Value` directly and never runs the reference wrapper's own check -/
 def exclInnerNode (o : Opts) (d : Doc) : Bool := d.kind = .innerSchemaRef && !refSibsOK o d.attrs
 
-/-- containment edges of the property for which the table has no unconditional edge -/
+/-- containment edges of the property for which the table has no unconditional edge (for a header: no edge whose
+only condition is that the header is not met again below itself) -/
 def uncovered (T : Table) : List (Kind × String) :=
-  specEdges.filter (fun e => !((rowsFor T.edges e.1 e.2).contains []))
+  specEdges.filter (fun e => !((rowsFor T.edges e.1 e.2).contains [] ||
+    (e.1 = .header && (rowsFor T.edges e.1 e.2).contains ["@not:cond:h == header"])))
 
 /-- the containment edges along which the code is known not to report violations: the headers of an encoding
 object (validated, but the error is dropped by `continue`), and #28: `xml`, `discriminator` objects are never
